@@ -35,7 +35,9 @@ def util_run(xforms_text, frame):
     tx = adict(topic='main', frame=frame, xforms=list(cfg.xforms))
     return UTIL.execute_xforms(tx).frame
 
-def reader_run(opt, text, image):
+def reader_run(opt, text, image, before=()):
+    """the image is the LAST frame of a stream: `before` are earlier frames of the same reader, of other sizes (a stream
+    whose resolution changes); what the reader does to a frame must depend on that frame alone"""
     r = video_in.VideoReader.__new__(video_in.VideoReader)
     r.maxsize = video_in.parse_size(text) if opt == 'maxsize' else None
     r.resize = video_in.parse_size(text) if opt == 'resize' else None
@@ -43,10 +45,10 @@ def reader_run(opt, text, image):
     r.deque = collections.deque()
     r.cond = None
     r.as_bgr = True
-    feed = [image]
+    feed = list(before) + [image]
     r.read_one = lambda: feed.pop(0) if feed else None
     r.thread_reader()
-    out = r.deque[0][0]
+    out = r.deque[len(before)][0]
     return out
 
 def gen_dims(rng, thorough):
@@ -160,8 +162,15 @@ def main():
         opt = rng.choice(['maxsize', 'resize'])
         img3 = img if img.ndim == 3 else np.zeros((h, w, 3), np.uint8) if w * h < 500000 else img
         case = dict(reader=opt, size=text, image=[w, h])
+        before = []
+        if rng.random() < 0.4:
+            for _ in range(rng.randint(1, 2)):
+                bw, bh = rng.choice([(w, h), (max(1, w // 2), h), (h, w), gen_dims(rng, False), (rng.randint(1, 50), rng.randint(1, 50))])
+                if bw * bh < 500000:
+                    before.append(np.zeros((bh, bw, 3), np.uint8))
+            case['earlier_frames'] = [[b.shape[1], b.shape[0]] for b in before]
         try:
-            out = reader_run(opt, text, img3)
+            out = reader_run(opt, text, img3, before)
             got = (out.shape[1], out.shape[0])
         except cv2.error:
             got = None
